@@ -434,14 +434,9 @@ package goja
 
 // The other Go entry points that run script (New, Set, the Object methods of value.go, ExportTo of an
 // iterable) go through Runtime.try, i.e. vm.try, whose handler re-panics what is not a script
-// exception. C15 asks that the outermost pending call RETURNS the InterruptedError: stated on New as
+// exception (Runtime.try has no contract of its own: it is analysed as part of its callers). C15 asks that
+// the outermost pending call RETURNS the InterruptedError: stated on New as
 // the representative; it does not hold (recorded in /verif/known_findings.json).
-//@ func (*Runtime).try
-//@   props C15
-//@   maypanic
-//@   requires r != nil && r.vm != nil
-//@   ensures_abrupt !specIsScriptError(panicValue) [no-script-exception-escapes-as-a-panic]
-//@   assigns script, @vmRegs
 
 //@ func (*Runtime).New
 //@   props C15
